@@ -31,7 +31,7 @@ def gen_comment(rng):
     return {"i": "blockC", "text": "/*" + rng.choice(BC_TEXTS) + "*/"}
 
 
-def gen_items(rng, depth, top=True):
+def gen_items(rng, depth, top=True, lstd=False):
     items, used = [], set()
     for _ in range(rng.randint(1, 5)):
         r = rng.random()
@@ -50,7 +50,14 @@ def gen_items(rng, depth, top=True):
         if depth <= 0 or rng.random() < 0.55:
             items.append({"i": "kv", "k": k, "v": c02.gen_lit(rng)})
         elif rng.random() < 0.7:
-            items.append({"i": "sub", "k": k, "items": gen_items(rng, depth - 1, top=False)})
+            items.append({"i": "sub", "k": k, "items": gen_items(rng, depth - 1, top=False, lstd=lstd)})
+        elif lstd and rng.random() < 0.5:
+            # a list whose items are dicts, with line comments at the statement boundaries inside those dicts
+            ds = []
+            for _ in range(rng.randint(1, 3)):
+                inner = [x for x in gen_items(rng, 0, top=False) if x["i"] != "blockC"]
+                ds.append(inner)
+            items.append({"i": "lstd", "k": k, "ds": ds})
         else:
             items.append({"i": "lst", "k": k, "xs": [c02.gen_elem(rng, 0) for _ in range(rng.randint(0, 4))]})
     return items
@@ -66,6 +73,8 @@ def render(rng, items, level=0) -> str:
             out.append(f"{ind}{it['k']}\n{ind}{{\n" + render(rng, it["items"], level + 1) + f"\n{ind}}}\n")
         elif it["i"] == "lst":
             out.append(f"{ind}{it['k']} ( " + " ".join(t for x in it["xs"] for _, t in c02.toks_elem(x)) + " );\n")
+        elif it["i"] == "lstd":
+            out.append(f"{ind}{it['k']}\n{ind}(\n" + "".join(f"{ind}  {{\n" + render(rng, d, level + 1) + f"\n{ind}  }}\n" for d in it["ds"]) + f"{ind});\n")
         elif it["i"] == "lineC":
             out.append(f"{ind}{it['text']}\n")
         elif it["i"] == "blockC":
@@ -88,6 +97,9 @@ def expected_comments(items, path=()):
             bc.append(it["text"])
         elif it["i"] == "sub":
             out.update(expected_comments(it["items"], path + (it["k"],)))
+        elif it["i"] == "lstd":
+            for i, d in enumerate(it["ds"]):
+                out.update(expected_comments(d, path + (it["k"], i)))
     out[path] = (lc, bc)
     return out
 
@@ -103,6 +115,10 @@ def observed_comments(sd, d=None, path=()):
             bc.append(sd.block_comments.get(int(k[-6:])))
         elif isinstance(v, dict):
             out.update(observed_comments(sd, v, path + (k,)))
+        elif isinstance(v, list):
+            for i, x in enumerate(v):
+                if isinstance(x, dict):
+                    out.update(observed_comments(sd, x, path + (k, i)))
     out[path] = (lc, bc)
     return out
 
@@ -166,6 +182,7 @@ def process(ctx: Ctx, cases: list[dict]) -> None:
         obs = observed_comments(sd)
         for path, (lc, bc) in exp.items():
             olc, obc = obs.get(path, ([], []))
+            olc = [t for i, t in enumerate(olc) if t not in olc[:i]]      # identical comments at one level may be kept once or each
             if olc != lc:
                 ctx.violation("line comments of a level are not returned in source order with exact text", c, {"path": list(path), "got": olc}, lc); break
             if sorted(obc) != sorted(bc):
@@ -189,6 +206,7 @@ def process(ctx: Ctx, cases: list[dict]) -> None:
                     if t not in lc2:
                         lc2.append(t)
                 got = obs2.get(path, ([], []))[0]
+                got = [t for i, t in enumerate(got) if t not in got[:i]]
                 if got != lc2 and [g for g in got if g in lc2] != lc2:
                     ctx.violation("line comments are not written at their level in their original order", c, {"path": list(path), "got": got, "out": out}, lc2); break
                 norm = lambda t: "\n".join(l.rstrip() for l in t.replace("\r\n", "\n").replace("\r", "\n").split("\n"))
@@ -272,7 +290,7 @@ def run(ctx: Ctx) -> None:
     cases.append(mk_case(rng, items)); ctx.corpus_cases += 1
     for _ in range(ctx.n(500, 12000)):
         for _try in range(50):
-            items = gen_items(rng, rng.choice([0, 1, 2, 3]))
+            items = gen_items(rng, rng.choice([0, 1, 2, 3]), lstd=True)
             # inputs of the known-finding classes D28 / D32 stay out of the compared stream (a few pass, to confirm the class)
             if not (first_block_nested(items) or _d32({"input": {"items": items}})) or rng.random() < 0.03:
                 break
